@@ -21,6 +21,7 @@ import (
 	. "verif/harness/hlib"
 
 	"deps.dev/util/resolve"
+	"deps.dev/util/resolve/dep"
 	"github.com/google/osv-scalibr/guidedremediation"
 	"github.com/google/osv-scalibr/guidedremediation/options"
 	"github.com/google/osv-scalibr/guidedremediation/result"
@@ -157,7 +158,8 @@ type absPatch struct {
 func absOf(p result.Patch) absPatch {
 	a := absPatch{Fixed: vulnIDs(p.Fixed), Introduced: vulnIDs(p.Introduced)}
 	for _, u := range p.PackageUpdates {
-		a.Updates = append(a.Updates, Upd{u.Name, u.VersionFrom, u.VersionTo, u.Transitive})
+		alias, _ := u.Type.GetAttr(dep.KnownAs)
+		a.Updates = append(a.Updates, Upd{u.Name, u.VersionFrom, u.VersionTo, u.Transitive, alias})
 	}
 	return a
 }
@@ -165,7 +167,7 @@ func absOf(p result.Patch) absPatch {
 func (a absPatch) event(k int) Event {
 	ups := []any{}
 	for _, u := range a.Updates {
-		ups = append(ups, []any{u.Name, u.From, u.To, u.Transitive})
+		ups = append(ups, []any{u.Name, u.From, u.To, u.Transitive, u.Alias})
 	}
 	return Event{"ev": "Patch", "k": k, "updates": ups, "fixed": a.Fixed, "introduced": a.Introduced}
 }
@@ -311,7 +313,7 @@ func runCase(e *Env, idx int, c *Case, limit time.Duration) (*Out, error) {
 	emit(Event{"ev": "Reset", "case": c.ID, "eco": s.Eco, "mode": s.Opts.Mode, "strategy": s.Opts.Strategy, "levels": lv,
 		"maxUpgrades": s.Opts.MaxUpgrades, "noIntroduce": s.Opts.NoIntroduce, "explicit": strs(s.Opts.Explicit), "ignore": strs(s.Opts.Ignore)})
 
-	orig, err := writeManifest(filepath.Join(dir, "orig"), s.Eco, s.Manifest)
+	orig, err := writeManifest(filepath.Join(dir, "orig"), s.Eco, s.Manifest, s.Layout)
 	if err != nil {
 		return nil, err
 	}
@@ -331,7 +333,7 @@ func runCase(e *Env, idx int, c *Case, limit time.Duration) (*Out, error) {
 	variant := 0
 	resolveReqs := func(reqs []MReq) (*resolve.Graph, error) {
 		variant++
-		p, err := writeManifest(filepath.Join(dir, "v"+strconv.Itoa(variant)), s.Eco, reqs)
+		p, err := writeManifest(filepath.Join(dir, "v"+strconv.Itoa(variant)), s.Eco, reqs, s.Layout)
 		if err != nil {
 			return nil, err
 		}
@@ -349,7 +351,7 @@ func runCase(e *Env, idx int, c *Case, limit time.Duration) (*Out, error) {
 			var baseS, afterS, baseSrc string
 			bg, berr := resolveReqs(applyUpdates(s.Eco, s.Manifest, rest))
 			if berr == nil {
-				if v, ok, _ := resolvedVersion(bg, u.Name); ok {
+				if v, ok, _ := resolvedVersion(bg, u.Name, u.Alias); ok {
 					baseS, baseSrc = v, "graph"
 				}
 			}
@@ -358,7 +360,7 @@ func runCase(e *Env, idx int, c *Case, limit time.Duration) (*Out, error) {
 				ag, _ = resolveReqs(applyUpdates(s.Eco, s.Manifest, a.Updates))
 			}
 			if ag != nil {
-				if v, ok, _ := resolvedVersion(ag, u.Name); ok {
+				if v, ok, _ := resolvedVersion(ag, u.Name, u.Alias); ok {
 					afterS = v
 				}
 			}
@@ -657,6 +659,53 @@ func runCase(e *Env, idx int, c *Case, limit time.Duration) (*Out, error) {
 			ag = g2 // the graph of the manifest FixVulns really wrote
 		}
 		judge(i+1, a, ag, applied)
+	}
+	// ---- C11 for the APPLIED COMBINATION: when several patches were applied, every applied update is also judged
+	// against the resolution with all the other applied updates but not that one (the manifest really written) ----
+	if len(ks) >= 2 && g2 != nil {
+		type au struct {
+			k int
+			u Upd
+		}
+		var allUps []au
+		for _, k := range ks {
+			for _, u := range all[k-1].Updates {
+				allUps = append(allUps, au{k, u})
+			}
+		}
+		for i, x := range allUps {
+			var rest []Upd
+			for j, y := range allUps {
+				if j != i {
+					rest = append(rest, y.u)
+				}
+			}
+			u := x.u
+			lvl := LevelOf(s.Opts.Levels, u.Name)
+			var baseS, afterS string
+			if bg, err := resolveReqs(applyUpdates(s.Eco, s.Manifest, rest)); err == nil {
+				if v, ok, _ := resolvedVersion(bg, u.Name, u.Alias); ok {
+					baseS = v
+				}
+			}
+			if v, ok, _ := resolvedVersion(g2, u.Name, u.Alias); ok {
+				afterS = v
+			}
+			toKind, toAt := reqShape(u.To)
+			emit(Event{"ev": "Base", "k": x.k, "name": u.Name, "base": verTuple(baseS), "after": verTuple(afterS), "src": "applied-combination",
+				"toKind": toKind, "toAt": toAt, "hard": s.hardInvolved(u)})
+			bv, ok1 := ParseVer(baseS)
+			av, ok2 := ParseVer(afterS)
+			if !ok1 || !ok2 {
+				continue
+			}
+			data := map[string]any{"patch": all[x.k-1], "update": u, "base": baseS, "after": afterS, "level": lvl, "applied": true, "combination": ks}
+			if Cmp(av, bv) <= 0 {
+				fail("C11", "not-upward", fmt.Sprintf("with the %d applied patches together, %s resolves to %s; without this applied change (all others kept) it resolves to %s: not strictly upward", len(ks), u.Name, afterS, baseS), data)
+			} else if d := Diff(bv, av); !Allows(lvl, d) && lvl != "none" {
+				fail("C11", "level-exceeded", fmt.Sprintf("with the %d applied patches together, %s moves %s -> %s (a %s change) but its upgrade level is %s", len(ks), u.Name, baseS, afterS, d, lvl), data)
+			}
+		}
 	}
 	return finish()
 }
